@@ -49,8 +49,9 @@ CHECKS = {
         text="Unbounded proof of the guards: in apply_if_safe_access / apply_to_database_name_if_has_permission / has_permission the guarded operation (a closure) "
              "carries a precondition that the caller contract provides only when the session may access the key - for a key starting with $$ that means an "
              "administrator session - so Verus rejects any path that reaches the closure without the check; a non-administrator asking for a $$ key gets an "
-             "error whatever is stored; Database::remove_value refuses $$token for everybody and changes nothing. Bounded Kani harness: filter_system_keys hides "
-             "exactly the $$ prefix from non-admin listings.",
+             "error whatever is stored; Database::remove_value refuses $$token for everybody and changes nothing; the REAL dispatcher arms of get / get-safe / "
+             "watch / set / increment / remove (extracted arm by arm, closure bodies abstracted) pass the request's own key through that guard. Bounded Kani "
+             "harness: filter_system_keys hides exactly the $$ prefix from non-admin listings.",
         level_note="Dispatcher arms that bypass the guard (Resolve, Arbiter, rp) are NOT covered and the check does not claim noninterference for them. "
                    "str::starts_with is a trusted prefix test. Sequential semantics. The Kani harness is bounded (3-byte keys) and is not counted as proved.",
     ),
@@ -60,9 +61,13 @@ CHECKS = {
              "apply_if_safe_access / apply_to_database* answer with an error unless the session selected an existing database and (for keyed commands) the "
              "permission decision allows the key and kind; has_permission: $$ keys admin only, a user without a permission list reaches no key, a token "
              "session without an 'all' list has full access, otherwise the stored list decides; is_valid_token / is_valid_user_token equal the lookup of "
-             "$$token / $$user_<name>. Complete Kani harnesses: apply_if_auth (call counter), PermissionKind letters.",
+             "$$token / $$user_<name>. The command -> credential table is proved on the REAL arms of process_request_obj (34 arms extracted one by one, rule "
+             "R10): each keyed data command asks the guard for exactly the kind the property names (get/get-safe/watch: read, set: write, increment, remove), "
+             "20 administrative / cluster commands run their operation only for an administrator session, keys / unwatch / unwatch-all / arbiter only with a "
+             "selected existing database. Complete Kani harnesses: apply_if_auth (call counter), PermissionKind letters.",
         level_note="The decision of a stored permission list (parse + pattern match) is an uninterpreted function (iterator pipelines are out of reach for both "
-                   "back ends). That every dispatcher arm uses the right guard, the use-db arm, and mid-session changes are NOT decided.",
+                   "back ends). Arms that are not a single guard call (Auth, UseDb, Resolve, rp) and what a closure does once allowed are NOT verified; a failed "
+                   "use-db leaving the selection untouched is covered by the bounded sweep only.",
     ),
     "C12": dict(
         engine="verus-units+kani", design_ref="DESIGN.md §5 C12", technique="deductive verification (Verus/Z3) with loop invariants over an abstract file model; complete Kani harness for the op-kind codec",
